@@ -331,32 +331,37 @@ def rule_tree(ctx):
           probs_v.append("P_parent != P_left * P_right")
       if ext:
         th = as_poly(head.env.get("t"))
-        tas = [e for e in evs if e.kind == "assign" and e.data["name"] == "t"]
-        if len(tas) != 1:
-          probs_t.append("t rebuilt %d times in one level step" % len(tas))
-        else:
-          m = as_poly(tas[0].data["value"]).as_atom()
-          good = False
-          if m is not None and m.kind == "map":
-            elt, bv, src = m.args
-            b = Poly.atom(bv)
-            TL, TR = sym.mk("idx", sl(th, None), b), sym.mk("idx", sl(th, 1), b)
-            PL, PR = sym.mk("idx", sl(vh, None), b), sym.mk("idx", sl(vh, 1), b)
-            want_src = sym.mk("zip", sl(th, None), sl(th, 1), sl(vh, None), sl(vh, 1))
-            res = elt - (TL * PR + TR * PL)
-            sa = src.as_atom()
-            # zip truncates to the shortest slice: any zip over the even/odd slices that contains an odd one has floor(n/2) items
-            same_shape = sa is not None and sa.kind == "zip" and all(x in (sl(th, None), sl(th, 1), sl(vh, None), sl(vh, 1)) for x in sa.args)
-            if res.is_zero() and same_shape:
-              good = True
-            elif res.is_zero():
-              probs_t.append("T step pairs the wrong children: %r" % (src,))
-              good = None
-            else:
-              probs_t.append("T_parent - (T_L*P_R + T_R*P_L) = %r (not zero)" % (res,))
-              good = None
-          if good is False:
-            probs_t.append("T step is not a comprehension over the paired children")
+        # value semantics: at the end of a level step the T list is M = [T_L*P_R + T_R*P_L over the paired children], followed on odd levels by the
+        # old last element (however it was built: comprehension or append loop, in place or through a temporary)
+        t_end = s.env.get("t")
+        carried = None
+        core = as_poly(t_end).as_atom() if isinstance(t_end, Poly) else None
+        n_app = 0
+        while core is not None and core.kind == "mut" and len(core.args) == 4 and core.args[1] == P("lit", "append"):
+          carried = as_poly(core.args[2]) if n_app == 0 else carried
+          n_app += 1
+          core = as_poly(core.args[0]).as_atom()
+        m = core
+        good = False
+        if m is not None and m.kind == "map":
+          elt, bv, src = m.args
+          b = Poly.atom(bv)
+          TL, TR = sym.mk("idx", sl(th, None), b), sym.mk("idx", sl(th, 1), b)
+          PL, PR = sym.mk("idx", sl(vh, None), b), sym.mk("idx", sl(vh, 1), b)
+          res = elt - (TL * PR + TR * PL)
+          sa = src.as_atom()
+          # zip truncates to the shortest slice: any zip over the even/odd slices that contains an odd one has floor(n/2) items
+          same_shape = sa is not None and sa.kind == "zip" and all(x in (sl(th, None), sl(th, 1), sl(vh, None), sl(vh, 1)) for x in sa.args)
+          if res.is_zero() and same_shape:
+            good = True
+          elif res.is_zero():
+            probs_t.append("T step pairs the wrong children: %r" % (src,))
+            good = None
+          else:
+            probs_t.append("T_parent - (T_L*P_R + T_R*P_L) = %r (not zero)" % (res,))
+            good = None
+        if good is False:
+          probs_t.append("T step is not a comprehension over the paired children")
         # T4 carry of the unpaired node
         par = sym.mk("mod", sym.mk("len", vh), Poly.const(2))        # parity of the level: a value in {0, 1}
         def parity_fact(f_):
@@ -374,17 +379,14 @@ def rule_tree(ctx):
         pf = [p_ for p_ in (parity_fact(f_) for f_ in s.facts) if p_ is not None]
         odd = 1 in pf
         notodd = 0 in pf
-        apps = [e for e in evs if e.kind == "mutate" and isinstance(e.data["target"], ast.Name) and e.data["target"].id == "t"]
         if odd:
-          if len(apps) != 1 or apps[0].data["method"] != "append" or as_poly(apps[0].data["args"][0]) != sym.mk("idx", th, Poly.const(-1)):
+          if n_app != 1 or carried is None or carried != sym.mk("idx", th, Poly.const(-1)):
             probs_c.append("odd level: the unpaired last T is not carried unchanged (t.append(t_old[-1]))")
-          elif tas and w.events.index(apps[0]) < w.events.index(tas[0]):
-            probs_c.append("carry appended before t is rebuilt")
         elif notodd:
-          if apps:
+          if n_app:
             probs_c.append("even level: an extra element is appended to t")
         else:
-          if apps:
+          if n_app:
             probs_c.append("t.append is not conditioned on len(values) % 2 == 1")
           else:
             probs_c.append("no parity test: the unpaired node of an odd level is dropped")
